@@ -1,2 +1,9 @@
 import Ufw.Props.C09
-#print axioms Ufw.Props.C09.seq_step
+#print axioms Ufw.Props.C09.stored_le_capacity
+#print axioms Ufw.Props.C09.ledger
+#print axioms Ufw.Props.C09.channel_error_no_frame
+#print axioms Ufw.Props.C09.free_releases_once
+#print axioms Ufw.Props.C09.write_payload_exact
+#print axioms Ufw.Props.C09.overflow_reply
+#print axioms Ufw.Props.C09.busy_reply
+#print axioms Ufw.Props.C09.short_frame_reply
